@@ -209,7 +209,21 @@ func runCase(env *ev.Env, c Case) (o ev.Outcome) {
 		}
 	}()
 	var before *dump.Dump
-	for _, target := range targets {
+	// every target is hit with an injected error; commit-phase targets and every 4th other target
+	// additionally with a cancellation of the request context at that point
+	type runSpec struct {
+		target inject.Site
+		mode   int
+	}
+	var runs []runSpec
+	for i, tg := range targets {
+		runs = append(runs, runSpec{tg, 0})
+		if strings.HasSuffix(tg.Name, "precommit") || tg.Name == "sql:commit:before" || i%4 == c.Offset%4 {
+			runs = append(runs, runSpec{tg, 1})
+		}
+	}
+	for _, run := range runs {
+		target := run.target
 		if wld == nil {
 			wld = build(env, c, &o, false)
 			if wld == nil {
@@ -223,12 +237,25 @@ func runCase(env *ev.Env, c Case) (o ev.Outcome) {
 			}
 		}
 		tgt := target
-		inject.C.Arm(&tgt, false)
-		r := wld.sess.Sides[0].Do(wld.sess.Resolve(c.Victim, 0))
+		mode := "error"
+		if run.mode == 1 {
+			mode = "cancel"
+		}
+		side := wld.sess.Sides[0].(*prog.StorageSide)
+		if mode == "cancel" {
+			ctx, cancel := context.WithCancel(context.Background())
+			side.Ctx = ctx
+			inject.C.ArmCancel(&tgt, cancel)
+			defer cancel()
+		} else {
+			inject.C.Arm(&tgt, false)
+		}
+		r := side.Do(wld.sess.Resolve(c.Victim, 0))
 		_, fired, writesBefore := inject.C.Disarm()
+		side.Ctx = context.Background()
 		o.Sub++
 		o.Count("fault_runs", 1)
-		o.Count("fault:"+siteClass(target.Name), 1)
+		o.Count("fault:"+mode+":"+siteClass(target.Name), 1)
 		if !fired {
 			o.Count("fault_not_reached", 1)
 		}
